@@ -27,19 +27,19 @@ __CPROVER_ensures(g_cleared == 1)
 void hist_on_entry_ids(hist11_t* self, fsm_t* sm, event_t event)
 __CPROVER_requires(REGIONS_OK && __CPROVER_is_fresh(self, sizeof(*self)) && __CPROVER_is_fresh(sm, sizeof(*sm)) && g_cleared == 0 && g_raised_by_own_entry == 0)
 __CPROVER_assigns(__CPROVER_object_upto(sm->m_active_state_ids, sizeof(sm->m_active_state_ids)), g_cleared)                /*@ob C08.entry-does-not-change-the-memory */
-__CPROVER_ensures(sm->m_active_state_ids[g_k] == ((POLICY == 1 || (POLICY == 2 && g_event_in_history_events)) ? self->m_last_active_state_ids[g_k] : g_init_ids16[g_k]))   /*@ob C08.entry-restores-the-documented-configuration */
+__CPROVER_ensures(sm->m_active_state_ids[g_k] == ((POLICY == 1 || (POLICY == 2 && g_event_in_history_events)) ? self->m_last_active_state_ids[g_k] : g_init_ids16[g_k]))   /*@ob C08,C03.entry-restores-the-documented-configuration */
 __CPROVER_ensures(g_cleared == ((g_has_event_pool && (POLICY == 0 || (POLICY == 2 && !g_event_in_history_events))) ? 1 : 0))   /*@ob C05,C08.deferred-events-kept-exactly-with-history */
 ;
 void hist_on_exit(hist11_t* self, fsm_t* sm)
 __CPROVER_requires(REGIONS_OK && __CPROVER_is_fresh(self, sizeof(*self)) && __CPROVER_is_fresh(sm, sizeof(*sm)))
 __CPROVER_assigns(__CPROVER_object_whole(self))                                                                             /*@ob C08.exit-touches-only-the-history-memory */
-__CPROVER_ensures(POLICY == 0 ? self->m_last_active_state_ids[g_k] == __CPROVER_old(self->m_last_active_state_ids[g_k]) : self->m_last_active_state_ids[g_k] == sm->m_active_state_ids[g_k])   /*@ob C08.exit-remembers-the-last-active-state-of-every-region */
+__CPROVER_ensures(POLICY == 0 ? self->m_last_active_state_ids[g_k] == __CPROVER_old(self->m_last_active_state_ids[g_k]) : self->m_last_active_state_ids[g_k] == sm->m_active_state_ids[g_k])   /*@ob C08,C03.exit-remembers-the-last-active-state-of-every-region */
 ;
 /* sm.visit<active_non_recursive>(visitor) / mp_for_each<InitialStateIds>(... visitor(state)) : the visitor is called for the active
    state of every region in region order [A: state_visitor.hpp not under contract] */
 void visit_active_entry(fsm_t* sm)
-__CPROVER_requires(g_seq == 2 && g_entry_next == 0 && !g_exc)                    /*@ob C02.substates-entered-after-the-machines-own-entry-and-after-all-ids-are-set */
-__CPROVER_requires(sm->m_event_processing)                                       /*@ob C04.entry-behaviours-run-with-the-busy-mark-set */
+__CPROVER_requires(g_seq == 2 && g_entry_next == 0 && !g_exc)                    /*@ob C02,C07,C09,C03.substates-entered-after-the-machines-own-entry-and-after-all-ids-are-set */
+__CPROVER_requires(sm->m_event_processing)                                       /*@ob C04,C10.entry-behaviours-run-with-the-busy-mark-set */
 __CPROVER_assigns(g_entry_next, g_exc)
 __CPROVER_ensures(!g_exc ==> g_entry_next == nr_regions)
 ;
@@ -47,15 +47,15 @@ void hist_on_entry_visit(hist11_t* self, fsm_t* sm, event_t event)
 __CPROVER_requires(REGIONS_OK && __CPROVER_is_fresh(self, sizeof(*self)) && __CPROVER_is_fresh(sm, sizeof(*sm)) && g_cleared == 0 && g_raised_by_own_entry == 0)
 __CPROVER_requires(g_seq == 1 && g_entry_next == 0 && !g_exc && sm->m_event_processing)
 __CPROVER_assigns(__CPROVER_object_upto(sm->m_active_state_ids, sizeof(sm->m_active_state_ids)), g_cleared, g_seq, g_entry_next, g_exc)
-__CPROVER_ensures(sm->m_active_state_ids[g_k] == ((POLICY == 1 || (POLICY == 2 && g_event_in_history_events)) ? self->m_last_active_state_ids[g_k] : g_init_ids16[g_k]))   /*@ob C08.entry-restores-the-documented-configuration */
-__CPROVER_ensures(!g_exc ==> g_entry_next == nr_regions)                                                                    /*@ob C02.every-regions-substate-entered */
+__CPROVER_ensures(sm->m_active_state_ids[g_k] == ((POLICY == 1 || (POLICY == 2 && g_event_in_history_events)) ? self->m_last_active_state_ids[g_k] : g_init_ids16[g_k]))   /*@ob C08,C03.entry-restores-the-documented-configuration */
+__CPROVER_ensures(!g_exc ==> g_entry_next == nr_regions)                                                                    /*@ob C02,C03,C07.every-regions-substate-entered */
 ;
 #define SET_IDS_THEN(call) ((call), g_seq = 2)      /* ghost step: all ids set */
 /* no_history: the entry visitor is applied to std::get<id>(sm.m_states) for the initial state ids, in region order (mp_for_each<InitialStateIds>) */
 void visitor_state_by_id(fsm_t* sm, uint16_t state_id)
-__CPROVER_requires(g_seq == 2 && !g_exc && 0 <= g_entry_next && g_entry_next < nr_regions)   /*@ob C02.substates-entered-after-the-machines-own-entry-and-after-all-ids-are-set */
+__CPROVER_requires(g_seq == 2 && !g_exc && 0 <= g_entry_next && g_entry_next < nr_regions)   /*@ob C02,C07,C09,C03.substates-entered-after-the-machines-own-entry-and-after-all-ids-are-set */
 __CPROVER_requires(state_id == g_init_ids16[g_entry_next])                                   /*@ob C02,C08.without-history-the-initial-state-of-every-region-is-entered-in-region-order */
-__CPROVER_requires(sm->m_event_processing)                                                   /*@ob C04.entry-behaviours-run-with-the-busy-mark-set */
+__CPROVER_requires(sm->m_event_processing)                                                   /*@ob C04,C10.entry-behaviours-run-with-the-busy-mark-set */
 __CPROVER_assigns(g_entry_next, g_exc)
 __CPROVER_ensures(g_exc || g_entry_next == __CPROVER_old(g_entry_next) + 1)
 __CPROVER_ensures(g_exc ==> g_entry_next == __CPROVER_old(g_entry_next))
@@ -63,8 +63,8 @@ __CPROVER_ensures(g_exc ==> g_entry_next == __CPROVER_old(g_entry_next))
 
 /* ---- state_machine_base ---- */
 void front_on_entry(fsm_t* self, event_t event, fsm_t* fsm)
-__CPROVER_requires(g_seq == 0 && !g_exc)                                         /*@ob C02.own-entry-before-any-substate */
-__CPROVER_requires(self->m_event_processing && self->m_running)                  /*@ob C04.entry-behaviours-run-with-the-busy-mark-set */
+__CPROVER_requires(g_seq == 0 && !g_exc)                                         /*@ob C02,C07,C09.own-entry-before-any-substate */
+__CPROVER_requires(self->m_event_processing && self->m_running)                  /*@ob C04,C10.entry-behaviours-run-with-the-busy-mark-set */
 __CPROVER_assigns(g_seq, g_exc, g_raised_by_own_entry)
 __CPROVER_ensures(g_exc ? g_seq == 0 : g_seq == 1)
 __CPROVER_ensures(g_raised_by_own_entry == 0 || g_raised_by_own_entry == 1)
@@ -73,18 +73,18 @@ void preprocess_entry(fsm_t* self, event_t event, fsm_t* fsm)
 __CPROVER_requires(__CPROVER_is_fresh(self, sizeof(*self)) && g_seq == 0 && !g_exc)
 __CPROVER_assigns(self->m_running, self->m_event_processing, g_seq, g_exc, g_raised_by_own_entry)
 __CPROVER_ensures(self->m_running)                                                /*@ob C03.every-entry-path-marks-the-machine-running-introspection-and-exit-depend-on-it */
-__CPROVER_ensures(self->m_event_processing)                                       /*@ob C04.entry-behaviours-run-with-the-busy-mark-set */
+__CPROVER_ensures(self->m_event_processing)                                       /*@ob C04,C10.entry-behaviours-run-with-the-busy-mark-set */
 __CPROVER_ensures(g_exc ? g_seq == 0 : g_seq == 1)
 ;
 void process_event_pool(fsm_t* self)
-__CPROVER_requires(!self->m_event_processing && !g_exc)                          /*@ob C04.pending-events-run-after-the-step-completed */
+__CPROVER_requires(!self->m_event_processing && !g_exc)                          /*@ob C04,C10.pending-events-run-after-the-step-completed */
 __CPROVER_assigns(g_pool_runs, g_exc)
 __CPROVER_ensures(g_pool_runs == __CPROVER_old(g_pool_runs) + 1)
 ;
 void postprocess_entry(fsm_t* self)
 __CPROVER_requires(__CPROVER_is_fresh(self, sizeof(*self)) && !g_exc && g_pool_runs == 0)
 __CPROVER_assigns(self->m_event_processing, g_pool_runs, g_exc)
-__CPROVER_ensures(!self->m_event_processing)                                                             /*@ob C04.busy-mark-cleared-after-the-entry */
+__CPROVER_ensures(!self->m_event_processing)                                                             /*@ob C04,C10.busy-mark-cleared-after-the-entry */
 __CPROVER_ensures(g_pool_runs == (g_has_event_pool ? 1 : 0))                                             /*@ob C04,C05.pending-and-deferred-events-processed-after-entry */
 ;
 void m_history_on_entry_visit(fsm_t* self, event_t event)      /* m_history.on_entry(self(), event, visitor): units above */
@@ -103,12 +103,12 @@ __CPROVER_ensures(self->m_running)                                              
 ;
 /* on_exit */
 void visit_active_exit(fsm_t* self, event_t event)
-__CPROVER_requires(g_seq == 0 && g_exit_next == 0 && !g_exc && EV_EQ(event, g_evt))   /*@ob C02.substates-exited-first */
+__CPROVER_requires(g_seq == 0 && g_exit_next == 0 && !g_exc && EV_EQ(event, g_evt))   /*@ob C02,C07.substates-exited-first */
 __CPROVER_assigns(g_exit_next, g_exc)
 __CPROVER_ensures(!g_exc ==> g_exit_next == nr_regions)
 ;
 void front_on_exit(fsm_t* self, event_t event, fsm_t* fsm)
-__CPROVER_requires(g_exit_next == nr_regions && g_seq == 0 && !g_exc)            /*@ob C02.own-exit-after-all-substates */
+__CPROVER_requires(g_exit_next == nr_regions && g_seq == 0 && !g_exc)            /*@ob C02,C07.own-exit-after-all-substates */
 __CPROVER_assigns(g_seq, g_exc)
 __CPROVER_ensures(g_exc ? g_seq == 0 : g_seq == 1)
 ;
@@ -119,8 +119,8 @@ __CPROVER_ensures(g_seq == 2)
 ;
 void machine_on_exit(fsm_t* self, event_t event, fsm_t* fsm)
 __CPROVER_requires(REGIONS_OK && __CPROVER_is_fresh(self, sizeof(*self)) && g_seq == 0 && g_exit_next == 0 && !g_exc && EV_EQ(event, g_evt))
-__CPROVER_assigns(g_seq, g_exit_next, g_exc)                                                                 /*@ob C02.exit-changes-no-active-state */
-__CPROVER_ensures(!g_exc ==> (g_exit_next == nr_regions && g_seq == 2))                                      /*@ob C02.exit-cascade-substates-then-machine-then-history */
+__CPROVER_assigns(g_seq, g_exit_next, g_exc)                                                                 /*@ob C02,C03.exit-changes-no-active-state */
+__CPROVER_ensures(!g_exc ==> (g_exit_next == nr_regions && g_seq == 2))                                      /*@ob C02,C07,C08.exit-cascade-substates-then-machine-then-history */
 ;
 /* on_state_entry_completed<State>(region_id) */
 extern const _Bool g_state_is_composite, g_state_has_completion; extern int g_front_pushed;
@@ -154,14 +154,14 @@ extern int g_pe_calls;
                     && g_zone[4] < nr_regions && g_zone[5] < nr_regions && g_zone[6] < nr_regions && g_zone[7] < nr_regions && ZONES_DISTINCT_FROM_W)
 void m_history_on_entry_ids(fsm_t* self, event_t event)
 __CPROVER_requires(g_seq == 1 && !g_exc && EV_EQ(event, g_evt))                  /*@ob C08.history-decided-by-the-users-entering-event */
-__CPROVER_requires(g_nt != nr_regions)                                           /*@ob C09.history-consulted-only-when-some-region-is-not-targeted */
+__CPROVER_requires(g_nt != nr_regions)                                           /*@ob C09,C08.history-consulted-only-when-some-region-is-not-targeted */
 __CPROVER_assigns(__CPROVER_object_upto(self->m_active_state_ids, sizeof(self->m_active_state_ids)), g_hist_called)
 __CPROVER_ensures(self->m_active_state_ids[g_k] == g_hist_ids[g_k] && g_hist_called == 1)
 ;
 extern int g_hist_called;
 void visitor_call_state(fsm_t* self, type_t State)          /* visitor(get_state<State>()) : state_entry_visitor::operator() */
-__CPROVER_requires(g_seq == 2 && !g_exc && self->m_event_processing)             /*@ob C04.entry-behaviours-run-with-the-busy-mark-set */
-__CPROVER_requires(0 <= g_entry_next && g_entry_next < g_nt && State == g_entry_next)   /*@ob C09.fork-targets-entered-in-listed-order-each-once */
+__CPROVER_requires(g_seq == 2 && !g_exc && self->m_event_processing)             /*@ob C04,C10.entry-behaviours-run-with-the-busy-mark-set */
+__CPROVER_requires(0 <= g_entry_next && g_entry_next < g_nt && State == g_entry_next)   /*@ob C09,C02.fork-targets-entered-in-listed-order-each-once */
 __CPROVER_assigns(g_entry_next, g_exc)
 __CPROVER_ensures(g_entry_next == __CPROVER_old(g_entry_next) + 1)
 ;
@@ -174,16 +174,16 @@ __CPROVER_ensures(!g_exc ==> g_entry_next == nr_regions)
 void on_explicit_entry(fsm_t* self, event_t event, fsm_t* fsm)
 __CPROVER_requires(REGIONS_OK && TARGETS_OK && __CPROVER_is_fresh(self, sizeof(*self)) && g_seq == 0 && g_entry_next == 0 && !g_exc && g_pool_runs == 0 && g_hist_called == 0 && EV_EQ(event, g_evt) && !self->m_event_processing)
 __CPROVER_assigns(self->m_running, self->m_event_processing, __CPROVER_object_upto(self->m_active_state_ids, sizeof(self->m_active_state_ids)), g_seq, g_entry_next, g_exc, g_raised_by_own_entry, g_pool_runs, g_hist_called)
-__CPROVER_ensures(!g_exc ==> self->m_active_state_ids[g_zone[g_w]] == g_tid[g_w])                                           /*@ob C09.every-named-target-becomes-active-in-its-region */
+__CPROVER_ensures(!g_exc ==> self->m_active_state_ids[g_zone[g_w]] == g_tid[g_w])                                           /*@ob C09,C03.every-named-target-becomes-active-in-its-region */
 __CPROVER_ensures((!g_exc && NO_TARGET_IN_K && g_nt != nr_regions) ==> (g_hist_called == 1 && self->m_active_state_ids[g_k] == g_hist_ids[g_k]))  /*@ob C08,C09.untargeted-regions-follow-the-history-policy */
-__CPROVER_ensures(!g_exc ==> g_entry_next == (g_nt == nr_regions ? g_nt : nr_regions))                                      /*@ob C09.every-region-entered-once */
+__CPROVER_ensures(!g_exc ==> g_entry_next == (g_nt == nr_regions ? g_nt : nr_regions))                                      /*@ob C09,C02,C03.every-region-entered-once */
 __CPROVER_ensures(!g_exc ==> g_pool_runs == (g_has_event_pool ? 1 : 0))
 __CPROVER_ensures(!self->m_event_processing)                                                                               /*@ob C04,C12.machine-not-left-busy */
 __CPROVER_ensures(self->m_running)                                                                                         /*@ob C03.explicitly-entered-machine-is-marked-running */
 ;
 process_result process_event(fsm_t* self, event_t event)
 __CPROVER_requires(g_seq == 2 && g_pe_calls == 0 && !g_exc && !self->m_event_processing)   /*@ob C09.entry-point-event-processed-once-after-the-entry */
-__CPROVER_requires(EV_EQ(event, g_evt))                                                  /*@ob C09.entry-point-continues-with-the-original-event */
+__CPROVER_requires(EV_EQ(event, g_evt))                                                  /*@ob C09,C18.entry-point-continues-with-the-original-event */
 __CPROVER_assigns(g_pe_calls, g_exc)
 __CPROVER_ensures(g_pe_calls == 1)
 ;
